@@ -10,7 +10,7 @@
     Graphs: node ids pairwise distinct ([NoDup (node_ids g)], guaranteed by networkx); adjacency is symmetric by
     construction ([LGraph.adj]). *)
 From Coq Require Import List NArith ZArith Bool Arith Permutation Sorted.
-From SK Require Import lib.LGraph model.C12_Model model.C12_Trace model.C12_Check model.C12_CheckMtg model.C12_State proof.C12_Search proof.C12_Proof proof.C12_Prune proof.C12_Enum proof.C12_Sorted proof.C12_Component proof.C12_Mol proof.C12_State proof.C12_Trace proof.C12_LastSize proof.C12_StateRaw proof.C12_Check proof.C12_MtgRaw proof.C12_CheckMtg.
+From SK Require Import lib.LGraph model.C12_Model model.C12_Trace model.C12_Check model.C12_CheckMtg model.C12_State proof.C12_Search proof.C12_Proof proof.C12_Prune proof.C12_Enum proof.C12_Sorted proof.C12_Component proof.C12_Mol proof.C12_State proof.C12_Trace proof.C12_LastSize proof.C12_StateRaw proof.C12_Check proof.C12_MtgRaw proof.C12_CheckMtg proof.C12_FacadeRaw.
 Import ListNotations.
 
 (** ** 0. the specification: a common induced sub-graph mapping, written out.
@@ -783,3 +783,23 @@ Theorem C12_mtg_facade_mcs_mol :
   t_step cfg st (TRcMol x choice) = t_step cfg st (TFindMol (rc_r1 x) (rc_l2 x) choice).
 Proof. exact t_rc_mol_is_find_mol. Qed.
 Print Assumptions C12_mtg_facade_mcs_mol.
+
+(** ** 26. the ITS facade on the caller's graphs: find_rc_mapping(rc1, rc2, side, mcs, component=False) after ANY history of
+    calls on the object returns mappings that are valid ([raw_valid], section 21) for the two SIDES it selects -- r: right/right,
+    l: left/left, op: right of rc1 / left of rc2, its: the arguments themselves --, mutually inverse in the two directions; in
+    maximum mode of size last_size with no valid mapping of the sides larger; in all-sizes mode every non-empty one returned *)
+Theorem C12_facade_valid_raw :
+  forall (a : ctor_args) (cfg : config) (st : mstate) (ops : list mop) (x : rc_input) (sd : side) (mcs : bool)
+         (ga gb : rgraph) (rds : list mop),
+  mk_config a = Some cfg -> pick_sides x sd = Some (ga, gb) ->
+  NoDup (node_ids ga) -> NoDup (node_ids gb) -> forallb is_read rds = true ->
+  let stf := m_run cfg st (ops ++ MRc x sd mcs false :: rds) in
+  exists l12 l21, m_get stf D12 = Some l12 /\ m_get stf D21 = Some l21 /\
+    l21 = map invert_mapping l12 /\ l12 = map invert_mapping l21 /\
+    (forall m, In m l12 -> raw_valid cfg ga gb m /\ 1 <= length m) /\
+    (forall m, In m l21 -> raw_valid cfg gb ga m /\ 1 <= length m) /\
+    (mcs = true -> (forall m, In m l12 -> length m = s_last stf) /\
+                   (forall m, raw_valid cfg ga gb m -> length m <= s_last stf)) /\
+    (mcs = false -> forall m, raw_valid cfg ga gb m -> 1 <= length m -> exists m', In m' l12 /\ Permutation m m').
+Proof. exact history_rc_valid_raw. Qed.
+Print Assumptions C12_facade_valid_raw.
